@@ -37,6 +37,7 @@ def build(reg):
         raises={},
         loops={0: LoopSpec(index='i', modifies=['pkt', 'k', 'v'],
                            inv=["pkt == join(b' ', line) + %s + hdrs(keys(headers), mapof(headers), i)" % CRLF])}))
+    T += handler_contracts(reg)
     CLV = "utf8enc(dec(len(body))) if (not isnone(body) and len(body) > 0) else b'0'"
     T.append(reg.contract(
         UT, 'build_http_response', result='bytes', modifies=['headers'],
@@ -52,6 +53,67 @@ def build(reg):
         raises={},
         loops={0: LoopSpec(index='i', modifies=['has_transfer_encoding', 'k', '_'],
                            inv=["has_transfer_encoding == exists('j', 0, i, lower(keys(headers)[j]) == b'transfer-encoding')"])}))
+    return T
+
+
+def handler_contracts(reg):
+    """HttpProtocolHandler._parse_first_request / handle_data: whatever the parser or the plugin does,
+    a rejected request gets exactly the canned 400 packet and the connection is torn down."""
+    from pyvc.engine import from_py
+    from proxy.http.responses import BAD_REQUEST_RESPONSE_PKT
+    from . import proxyplugin
+    HH = 'proxy/http/handler.py'
+    PF = 'proxy/http/parser/parser.py'
+    handler.add_handler(reg)
+    proxyplugin.add_parser_class(reg)
+    reg.spec_consts['BAD_REQUEST'] = from_py(BAD_REQUEST_RESPONSE_PKT)
+    pf = dict(proxyplugin.PARSER_FIELDS)
+    pf['_url'] = ('opt', ('obj', 'Url'))
+    reg.klass('Url', py='proxy.http.url:Url', fields={
+        'scheme': ('opt', 'bytes'), 'username': ('opt', 'bytes'), 'password': ('opt', 'bytes'),
+        'hostname': ('opt', 'bytes'), 'port': ('opt', 'int'), 'remainder': ('opt', 'bytes')})
+    reg.klass('HttpParser', py='proxy.http.parser.parser:HttpParser', fields=pf)
+    H = dict(reg.classes['HttpProtocolHandler']['fields'])
+    H['request'] = ('obj', 'HttpParser')
+    reg.klass('HttpProtocolHandler', py='proxy.http.handler:HttpProtocolHandler', fields=H)
+    # the parser is adversarial here: any state, any exception (ghost parse_raised marks a parse failure)
+    reg.contract(PF, 'HttpParser.parse', params={'raw': 'mv', 'allowed_url_schemes': ('opt', ('list', 'bytes'))},
+                 self_cls='HttpParser', assumed=True, modifies=['self.' + f for f in pf if f != 'type'],
+                 raise_modifies=['self.' + f for f in pf if f != 'type'],
+                 ghost_init={'parse_raised': 'bool'}, ensures=['parse_raised == old(parse_raised)'],
+                 raises={'Exception': ['parse_raised'], 'proxy.http.exception.HttpProtocolException': ['parse_raised']},
+                 note='adversarial: returns in any state or raises anything (its own behaviour: C03)')
+    reg.contract(HH, 'HttpProtocolHandler._discover_plugin_klass', params={'protocol': 'int'}, self_cls='HttpProtocolHandler',
+                 assumed=True, modifies=[], result=('opt', ('opaque', 'PluginKlass')), raises={})
+    reg.contract(HH, 'HttpProtocolHandler._initialize_plugin', params={'klass': ('opaque', 'PluginKlass')},
+                 self_cls='HttpProtocolHandler', assumed=True, modifies=[], result=('obj', 'ProtoPlugin'), raises={'Exception': []})
+    reg.contract('<plugin>', 'ProtoPlugin.on_request_complete', self_cls='ProtoPlugin', assumed=True, result='bool',
+                 modifies=handler.PLUGIN_MOD, raise_modifies=handler.PLUGIN_MOD, ensures=handler.PLUGIN_POST,
+                 ghost_init={'parse_raised': 'bool'},
+                 raises={'Exception': handler.PLUGIN_POST + ['parse_raised == old(parse_raised)'],
+                         'proxy.http.exception.HttpProtocolException': handler.PLUGIN_POST + ['parse_raised == old(parse_raised)']},
+                 note='adversarial protocol plugin (TLS-upgrade return value not modelled: result is a bool)')
+    c = reg.contracts['ProtoPlugin.on_request_complete']
+    c.ensures = c.ensures + [('same-parse-flag', 'parse_raised == old(parse_raised)')]
+    reg.contract('<exc>', 'HttpProtocolException.response', params={'request': ('obj', 'HttpParser')},
+                 self_cls='HttpProtocolException', assumed=True, modifies=[], result=('opt', 'mv'), raises={})
+    PRE, AL = handler.HANDLER_PRE, handler.HANDLER_ALIAS
+    BUF, OLD = 'self.work.buffer', 'old(self.work.buffer)'
+    WM = ['self.work.buffer', 'self.work._num_buffer', 'self.plugin', 'self.work._conn'] + ['self.request.' + f for f in pf if f != 'type']
+    T = []
+    T.append(reg.contract(
+        HH, 'HttpProtocolHandler._parse_first_request', self_cls='HttpProtocolHandler', params={'data': 'mv'}, result='bool',
+        requires=PRE + [('no-plugin-yet', 'isnone(self.plugin)')], ghost_init={'parse_raised': 'bool'},
+        modifies=WM, raise_modifies=WM,
+        ensures=[('unparsable-cannot-return', 'parse_raised == old(parse_raised)'),
+                 ('incomplete-waits-silently', '(not result and isnone(self.plugin)) ==> %s == %s' % (BUF, OLD)),
+                 ('rejection-is-one-400-and-teardown', '(isnone(self.plugin) and %s != %s) ==> (result and %s == %s + [BAD_REQUEST])' % (BUF, OLD, BUF, OLD)),
+                 ('repr', 'self.work._num_buffer == len(self.work.buffer)')],
+        raises={'proxy.http.exception.HttpProtocolException': [
+                    ('parse-failure-queues-exactly-one-400', '(parse_raised and not old(parse_raised)) ==> %s == %s + [BAD_REQUEST]' % (BUF, OLD)),
+                    ('repr', 'self.work._num_buffer == len(self.work.buffer)')],
+                'Exception': [('only-the-plugin-may-fail-otherwise', 'parse_raised == old(parse_raised)'),
+                              ('repr', 'self.work._num_buffer == len(self.work.buffer)')]}))
     return T
 
 
